@@ -3690,7 +3690,9 @@ class mulgrid(object):
                                                  [(0, 1, 2, 3), (3, 4, 5, 0)],
                                                  chars, spaces)
                 else: return self.triangulate_column(column_name, chars, spaces)
-            elif (nn, ns) == (7, 3):
+            elif (nn, ns) == (7, 3) and \
+                 sorted([(straight[(i + 1) % 3] - straight[i]) % nn
+                         for i in range(3)]) == [2, 2, 3]: # (alternating straight nodes)
                 last2 = [col.index_minus(i, 2) for i in straight]
                 start = [s for s, l in zip(straight, last2) if l not in straight][0]
                 return self.subdivide_column(column_name, start,
